@@ -164,10 +164,10 @@ def _c17(tier):
     q = tier == 'quick'
     return {
         'runs': [('fault', {'max_points': 45 if q else None,
-                            'pairs': 0 if q else 12}, 230 if q else 3600),
+                            'pairs': 0 if q else 12}, 420 if q else 3600),
                  ('fault', {'max_points': 45 if q else None,
-                            'variant': 'tree'}, 40 if q else 600),
-                 ('sync_fault', {'pairs': 0 if q else 1}, 24 if q else 300)],
+                            'variant': 'tree'}, 70 if q else 600),
+                 ('sync_fault', {'pairs': 0 if q else 1}, 32 if q else 300)],
         'level': 'fault_enumeration',
         'rule': FAULT_RULE + ' quick samples at most 45 (ordinal, kind) '
         'points per entry, always keeping the must-retry windows; thorough '
@@ -183,9 +183,9 @@ def _c18(tier):
     q = tier == 'quick'
     return {
         'runs': [('crash', {'max_points': 40 if q else None},
-                  260 if q else 4500),
+                  520 if q else 4500),
                  ('crash', {'max_points': 40 if q else None,
-                            'variant': 'tree'}, 80 if q else 1200)],
+                            'variant': 'tree'}, 160 if q else 1200)],
         'level': 'fault_enumeration',
         'rule': FAULT_RULE.replace('(ordinal, fault kind)',
                                    'crash point') +
@@ -206,8 +206,8 @@ def _c18(tier):
 def _c19(tier):
     q = tier == 'quick'
     return {
-        'runs': [('names', {}, 700 if q else 12000),
-                 ('sync_fault', {}, 16 if q else 150)],
+        'runs': [('names', {}, 1800 if q else 12000),
+                 ('sync_fault', {}, 32 if q else 150)],
         'level': 'exploration',
         'rule': 'seeded histories of trait / resource-class create, rename '
         'and delete requests (legal, illegal, boundary-length and standard '
@@ -224,7 +224,7 @@ def _c19(tier):
 def _c02(tier):
     q = tier == 'quick'
     return {
-        'runs': [('cand_claim', {}, 500 if q else 9000)],
+        'runs': [('cand_claim', {}, 1000 if q else 9000)],
         'level': 'exploration',
         'rule': 'a seeded set-up history (12-32 requests: nested and sharing '
         'providers, inventories with reserved/ratio/unit constraints, prior '
@@ -247,7 +247,7 @@ def _c02(tier):
 def _c20(tier):
     q = tier == 'quick'
     return {
-        'runs': [('cand_limit', {}, 260 if q else 5000)],
+        'runs': [('cand_limit', {}, 450 if q else 5000)],
         'level': 'exploration',
         'rule': 'states and queries as for C02; for each (state, query) the '
         'unlimited result M with randomisation off, then every limit 1..|M|+1 '
